@@ -43,6 +43,7 @@ type Component struct {
 	Name  string // as written, e.g. "~card" or "components/card"
 	Args  *ObjLit
 	Slots []SlotBody
+	Gap   string // whitespace written before every @slot and before the closing @end
 }
 type SlotBody struct {
 	Name string
